@@ -985,3 +985,35 @@ Proof.
   - intros r Hr. vm_compute in Hr. repeat (destruct Hr as [<-|Hr]; [discriminate|]). destruct Hr.
   - intros H. apply lower_none_iff in H. vm_compute in H. discriminate.
 Qed.
+
+(* ---------- the alias pass touches function names and keys only (per the alias table), never a value ---------- *)
+Definition rule_values (r : rule) : list (bool * list string) * func :=
+  (map (fun f => (f_not f, map p_val (f_params f))) (r_funcs r), r_out r).
+
+Lemma alias_param_val : forall n p, p_val (alias_param n p) = p_val p.
+Proof. intros n p. unfold alias_param. destruct (n =? alias_key_function_src); reflexivity. Qed.
+
+Lemma alias_param_key : forall n p, p_key (alias_param (canon_fname n) p) = canon_key (canon_fname n) (p_key p).
+Proof.
+  intros n p. unfold alias_param, alias_key_function_src.
+  destruct (canon_fname n =? "domain") eqn:E.
+  - cbn [p_key]. rewrite alias_key_canon. apply String.eqb_eq in E. now rewrite E.
+  - unfold canon_key. now rewrite E.
+Qed.
+
+Lemma C04_alias_preserves_values_proof :
+  forall rules : list rule,
+    map rule_values (alias_opt rules) = map rule_values rules
+    /\ forall r f, In r rules -> In f (r_funcs r) ->
+         f_name (alias_func f) = canon_fname (f_name f)
+         /\ map p_key (f_params (alias_func f)) = map (canon_key (canon_fname (f_name f))) (map p_key (f_params f))
+         /\ map p_val (f_params (alias_func f)) = map p_val (f_params f).
+Proof.
+  intros rules. split.
+  - unfold alias_opt. rewrite map_map. apply map_ext. intros r. unfold rule_values, alias_rule; cbn [r_funcs r_out].
+    f_equal. rewrite map_map. apply map_ext. intros f. unfold alias_func; cbn [f_not f_params].
+    f_equal. rewrite map_map. apply map_ext. intros p. apply alias_param_val.
+  - intros r f _ _. unfold alias_func; cbn [f_name f_params]. rewrite alias_fname_canon. repeat split.
+    + rewrite !map_map. apply map_ext. intros p. apply alias_param_key.
+    + rewrite map_map. apply map_ext. intros p. apply alias_param_val.
+Qed.
